@@ -51,6 +51,7 @@ type Flags struct {
 }
 
 type Case struct {
+	ErrStyle string `json:"err_style,omitempty"` // how the storage words its own refusals (vkit.Store.refuse)
 	Router         string `json:"router"` // provider | legacy
 	Flags          Flags  `json:"flags"`
 	Reg            Reg    `json:"reg"`
@@ -129,6 +130,15 @@ func rightPres(m string) string {
 }
 
 func genCase(t *rapid.T) Case {
+	c := genCase0(t)
+	// drawn last so that the rest of the case does not depend on it
+	if rapid.Bool().Draw(t, "errstyled") {
+		c.ErrStyle = rapid.SampledFrom(vkit.ErrStyles).Draw(t, "errstyle")
+	}
+	return c
+}
+
+func genCase0(t *rapid.T) Case {
 	var c Case
 	c.Router = rapid.SampledFrom([]string{"provider", "legacy"}).Draw(t, "router")
 	on := []bool{true, true, true, true, false}
@@ -626,7 +636,7 @@ func run(c Case) (res *vkit.Result) {
 	t0 := time.Now()
 	ctx := context.Background()
 	x, z, guess := buildClients(c)
-	st := vkit.NewStore([]*vkit.ClientSpec{x, z}, vkit.SignKeySpec{KeyName: "rsa1", Alg: "RS256", KID: "sig1"}, vkit.StorePolicy{})
+	st := vkit.NewStore([]*vkit.ClientSpec{x, z}, vkit.SignKeySpec{KeyName: "rsa1", Alg: "RS256", KID: "sig1"}, vkit.StorePolicy{ErrStyle: c.ErrStyle})
 	spec := vkit.DefaultProviderSpec(c.Router)
 	spec.Post, spec.PKJWT, spec.Refresh = c.Flags.Post, c.Flags.PKJWT, c.Flags.Refresh
 	spec.Caps = vkit.Caps{CC: c.Flags.CC, TE: c.Flags.TE, Device: c.Flags.Device}
